@@ -96,3 +96,40 @@ func VerifNoAlias() {
 	}
 	vrt.Assert(diff == 0, "isolation: returned bytes are the caller's own copy of the input bits")
 }
+
+// VerifConcurrentDecode: two decode jobs of the same input run concurrently
+// (each with its own read buffer, as fq does per decode): under every
+// interleaving with one pre-emption at the loads/stores of pkg/decode there is
+// no data race (shared package-level state), no deadlock, no panic, and both
+// trees equal the tree of a lone run.
+func VerifConcurrentDecode() {
+	buf := vrt.Bytes("buf", 4)
+	fn := func(d *D) any {
+		d.FieldU8("a")
+		d.FieldStruct("s", func(d *D) {
+			d.FieldU16("b")
+			d.FieldRawLen("r", 4)
+		})
+		d.FieldArray("arr", func(d *D) {
+			d.FieldU2("x")
+			d.FieldU2("x")
+		})
+		return nil
+	}
+	run := func() *Value {
+		garbage := make([]byte, 8)
+		g := &Group{Name: "prog", Formats: []*Format{{Name: "conc", RootName: "conc", DecodeFn: fn}}}
+		root, _, _ := Decode(nil, bitio.NewBitReader(buf, -1), g, Options{IsRoot: true, FillGaps: true, ReadBuf: &garbage})
+		return root
+	}
+	lone := run()
+	vrt.Threads(1, "pkg/decode")
+	res := make(chan *Value, 2)
+	go func() { res <- run() }()
+	go func() { res <- run() }()
+	a := <-res
+	b := <-res
+	vrt.Assert(lone != nil && a != nil && b != nil, "isolation: concurrent decodes succeed like the lone run")
+	zzSameTree(lone, a)
+	zzSameTree(lone, b)
+}
